@@ -70,7 +70,14 @@ def gen_body(rng, in_bracket_ctx=False, n=None):
                 add_text(rng.choice(SAFE_AFTER_NAME))
             continue
         if after_cmd in ('args', 'sizing'):
-            add_text(rng.choice(['x', '+', ' y', '=', '^2', ')', '(', ' )']))
+            t = rng.choice(['x', '+', ' y', '=', '^2', ')', '(', ' )'])
+            if after_cmd == 'args' and rng.random() < .3:
+                # blanks, then a bracket: not "directly after" the command, so
+                # plain text that need not balance
+                t = rng.choice([' [', ' [b', '\n[0,1)', ' \n [', '\t[x', ' ]', ' (0,1]'])
+                if in_bracket_ctx:
+                    t = t.replace(']', ')')
+            add_text(t)
             continue
         if c < .30:
             add_text(rng.choice(TEXT))
@@ -121,6 +128,12 @@ def gen_body(rng, in_bracket_ctx=False, n=None):
     if after_cmd in ('name', 'zero'):
         parts.append(' ')
     body = ''.join(parts)
+    if n is None and rng.random() < .08:
+        # the region's body opens with blanks and an unbalanced bracket
+        b = rng.choice([' [0,1) ', '\n[a ', ' \n [', '\t[', ' ]', '\n(0,1] '])
+        if in_bracket_ctx:
+            b = b.replace(']', ')')
+        body = b + body
     return body, exp
 
 
@@ -134,7 +147,7 @@ def region(kind, body):
 def fix_body(kind, body):
     """construction conditions: `$..$` is never empty, a `$`-delimited body
     neither starts nor ends with a dollar; a named environment's body does not
-    start with blank+brace/bracket (would be environment options)"""
+    start with a brace/bracket nor with blank+brace (would be environment options)"""
     if kind == '$' and body == '':
         body = 'x'
     if kind in ('$', '$$') and body.endswith('\\$') is False and body.endswith('$'):
@@ -142,7 +155,9 @@ def fix_body(kind, body):
     if kind.startswith('env:') and body[:1] in '{[':
         body = 'x' + body
     import re
-    if kind.startswith('env:') and re.match(r'[ \t]*\n?[ \t]*[\[{]', body):
+    # (a bracket after blanks is NOT an option of the environment: bracket
+    # groups attach after a brace group only when directly adjacent)
+    if kind.startswith('env:') and re.match(r'[ \t]*\n?[ \t]*\{', body):
         body = 'x' + body
     return body
 
